@@ -40,6 +40,7 @@ type guardedField struct {
 
 // checkGuards applies R-LOCK rows to every function of the rows' packages.
 func checkGuards(r *Reporter, p *Prog, rule string, rows []GuardRow) {
+	defer func() { fieldAlias = map[string]string{} }()
 	byVar := map[*types.Var]guardedField{}
 	pkgs := map[string]bool{}
 	for i := range rows {
@@ -262,6 +263,7 @@ func checkGuards(r *Reporter, p *Prog, rule string, rows []GuardRow) {
 				}
 				fresh := freshLocals(info, fd.Body)
 				seen := map[ast.Node]bool{}
+				fieldAlias = computeFieldAliases(info, fd.Body)
 				opts := &FlowOpts{Info: info, SyncCallee: syncCalleeDefault(info), SkipLit: func(l *ast.FuncLit) bool { return handledLits[pkg][l] }}
 				var chCore func(x ast.Node, rtName, rtPkgPath, fnName string, recvX ast.Expr, embChain string, stack []ast.Node, held LockSet)
 				chCall := func(x ast.Node, se *ast.SelectorExpr, stack []ast.Node, held LockSet) {
@@ -405,7 +407,7 @@ func checkGuards(r *Reporter, p *Prog, rule string, rows []GuardRow) {
 							return
 						}
 						base += embChain
-						want := base + e.chain
+						want := canonPath(base + e.chain)
 						if held[want] < e.mode && !condLocked(x.Pos(), want) {
 							fnN := needs[fkey]
 							if fnN == nil {
@@ -460,7 +462,7 @@ func checkGuards(r *Reporter, p *Prog, rule string, rows []GuardRow) {
 							return
 						}
 						base += embChain
-						want := base + "." + row.Mutex
+						want := canonPath(base + "." + row.Mutex)
 						if held[want] < need && !condLocked(x.Pos(), want) {
 							// a helper that calls a caller-holds helper on its own receiver is itself a
 							// candidate caller-holds helper
@@ -537,7 +539,7 @@ func checkGuards(r *Reporter, p *Prog, rule string, rows []GuardRow) {
 						return
 					}
 					base += embeddedChain(sel, hops)
-					want := base + "." + gf.row.Mutex
+					want := canonPath(base + "." + gf.row.Mutex)
 					if gf.row.ViaRecvType != "" {
 						switch {
 						case recvT == gf.row.ViaRecvType && recvPath != "":
@@ -629,6 +631,14 @@ func checkGuards(r *Reporter, p *Prog, rule string, rows []GuardRow) {
 												if ns, isWrap := wrapperLocksAt(info, c, ai, held); isWrap {
 													chCall(x, x, nil, ns)
 													return
+												}
+												// handed to a callee that runs its function argument before it returns
+												// (the policy for function literals): a call with the current lockset
+												if opts.SyncCallee != nil && opts.SyncCallee(c) {
+													if _, isGo := stackHasGoOrDefer(stack, c); !isGo {
+														chCall(x, x, nil, held)
+														return
+													}
 												}
 											}
 										}
@@ -1349,4 +1359,21 @@ func staticCallee(info *types.Info, c *ast.CallExpr) *types.Func {
 func isMapType(t types.Type) bool {
 	_, ok := t.Underlying().(*types.Map)
 	return ok
+}
+
+// stackHasGoOrDefer: is call c the call of a go or defer statement on the stack?
+func stackHasGoOrDefer(stack []ast.Node, c *ast.CallExpr) (ast.Node, bool) {
+	for _, n := range stack {
+		switch x := n.(type) {
+		case *ast.GoStmt:
+			if x.Call == c {
+				return x, true
+			}
+		case *ast.DeferStmt:
+			if x.Call == c {
+				return x, true
+			}
+		}
+	}
+	return nil, false
 }
